@@ -229,6 +229,20 @@ func (ev *Evaluator) callTypesFunc(pos token.Pos, fn *types.Func, recv Value, ar
 	}
 	decl, pkg := ev.FuncDecl(fn)
 	if decl == nil || decl.Body == nil {
+		// a method of an interface called on a value whose dynamic type is known: the method of that type
+		if sig, ok := fn.Type().(*types.Signature); ok && sig.Recv() != nil && types.IsInterface(sig.Recv().Type()) {
+			if r, ok := recv.(*Ref); ok && r.Typ != nil {
+				if sel := types.NewMethodSet(r.Typ).Lookup(fn.Pkg(), fn.Name()); sel != nil {
+					if concrete, ok := sel.Obj().(*types.Func); ok && concrete != fn {
+						var crecv Value = r
+						if _, isPtr := concrete.Type().(*types.Signature).Recv().Type().(*types.Pointer); !isPtr {
+							crecv = r.Get()
+						}
+						return ev.callTypesFunc(pos, concrete, crecv, args)
+					}
+				}
+			}
+		}
 		ev.fail(pos, "call to %s: no source available and no model registered", fn.FullName())
 	}
 	if Interpreted != nil {
@@ -646,9 +660,13 @@ func (ev *Evaluator) unary(env *Env, e *ast.UnaryExpr) Value {
 		if cl, ok := e.X.(*ast.CompositeLit); ok {
 			v := ev.composite(env, cl)
 			cell := &Var{V: v}
-			return &Ref{Get: func() Value { return cell.V }, Set: func(x Value) { cell.V = x }}
+			return &Ref{Get: func() Value { return cell.V }, Set: func(x Value) { cell.V = x }, Typ: env.pkg.TypesInfo.TypeOf(e)}
 		}
-		return ev.lvalue(env, e.X)
+		lv := ev.lvalue(env, e.X)
+		if lv != nil && lv.Typ == nil {
+			lv.Typ = env.pkg.TypesInfo.TypeOf(e)
+		}
+		return lv
 	case token.ARROW:
 		ch := ev.expr(env, e.X)
 		c, ok := ch.(*ChanVal)
@@ -1367,14 +1385,15 @@ func (ev *Evaluator) prepareCall(env *Env, e *ast.CallExpr) func() Value {
 				// pointer receiver on addressable value: pass a reference
 				if sig := fn.Type().(*types.Signature); sig.Recv() != nil {
 					if _, isPtr := sig.Recv().Type().(*types.Pointer); isPtr {
-						if _, already := recv.(*Ref); !already && strings.HasPrefix(fn.FullName(), "(*strings.Builder).") {
-							recv = ev.lvalue(env, sel.X) // the builder's contents replace the variable's value
+						_, isIdent := unparen(sel.X).(*ast.Ident)
+						if _, already := recv.(*Ref); !already && (strings.HasPrefix(fn.FullName(), "(*strings.Builder).") || (isIdent && strings.HasPrefix(fn.FullName(), "(*bytes.Buffer)."))) {
+							recv = ev.lvalue(env, sel.X) // x.M() with a pointer receiver is (&x).M(): the contents replace the variable's value
 						} else if !already {
 							holder := recv
 							recv = &Ref{Get: func() Value { return holder }, Set: func(v Value) { holder = v }}
 						}
-					} else if r, ok := recv.(*Ref); ok {
-						recv = r.Get()
+					} else if r, ok := recv.(*Ref); ok && !types.IsInterface(sig.Recv().Type()) {
+						recv = r.Get() // (an interface value keeps the pointer it holds: the method is chosen by its dynamic type)
 					}
 				}
 			}
@@ -1875,12 +1894,24 @@ func (ev *Evaluator) native(pos token.Pos, fn *types.Func, recv Value, args []Va
 			return S(strings.ToLower(s.Const())), true
 		}
 		return S(strings.TrimSpace(s.Const())), true
-	case "strings.HasPrefix", "strings.HasSuffix", "strings.Contains", "strings.TrimPrefix", "strings.TrimSuffix", "strings.TrimLeft", "strings.TrimRight", "strings.ReplaceAll_":
+	case "strings.HasPrefix", "strings.HasSuffix", "strings.Contains", "strings.TrimPrefix", "strings.TrimSuffix", "strings.TrimLeft", "strings.TrimRight", "strings.ReplaceAll_",
+		"strings.Cut", "strings.CutPrefix", "strings.CutSuffix", "strings.LastIndex":
 		a, b := argStr(0), argStr(1)
 		if !a.IsConst() || !b.IsConst() {
 			ev.fail(pos, "%s of symbolic string", full)
 		}
 		switch full {
+		case "strings.Cut":
+			x, y, found := strings.Cut(a.Const(), b.Const())
+			return Tuple{S(x), S(y), found}, true
+		case "strings.CutPrefix":
+			x, found := strings.CutPrefix(a.Const(), b.Const())
+			return Tuple{S(x), found}, true
+		case "strings.CutSuffix":
+			x, found := strings.CutSuffix(a.Const(), b.Const())
+			return Tuple{S(x), found}, true
+		case "strings.LastIndex":
+			return K(int64(strings.LastIndex(a.Const(), b.Const()))), true
 		case "strings.HasPrefix":
 			return strings.HasPrefix(a.Const(), b.Const()), true
 		case "strings.HasSuffix":
@@ -2184,6 +2215,27 @@ func (ev *Evaluator) native(pos token.Pos, fn *types.Func, recv Value, args []Va
 			}
 		}
 		return nil, true
+	case "sort.Search":
+		nl, ok := args[0].(Lin)
+		pred, ok2 := args[1].(*FuncVal)
+		if !ok || !nl.IsConst() || !ok2 {
+			ev.fail(pos, "sort.Search over a symbolic range")
+		}
+		// binary search exactly as the library does it
+		lo, hi := 0, int(nl.C)
+		for lo < hi {
+			mid := int(uint(lo+hi) >> 1)
+			ge, isBool := ev.callFuncVal(pos, pred, []Value{K(int64(mid))}).(bool)
+			if !isBool {
+				ev.fail(pos, "undecidable search predicate")
+			}
+			if !ge {
+				lo = mid + 1
+			} else {
+				hi = mid
+			}
+		}
+		return K(int64(lo)), true
 	case "sort.SearchStrings", "sort.SearchInts":
 		sl, ok := args[0].(Slice)
 		if !ok {
@@ -2281,6 +2333,50 @@ func (ev *Evaluator) native(pos token.Pos, fn *types.Func, recv Value, args []Va
 		case "(*strings.Builder).Grow":
 			return nil, true
 		}
+	case "strings.NewReplacer":
+		var pairs []string
+		for _, a := range args {
+			st, ok := a.(Str)
+			if !ok || !st.IsConst() {
+				ev.fail(pos, "strings.NewReplacer with a symbolic argument")
+			}
+			pairs = append(pairs, st.Const())
+		}
+		if len(pairs)%2 != 0 {
+			ev.fail(pos, "strings.NewReplacer: odd argument count (the library panics)")
+		}
+		return &Handle{Dyn: "*strings.Replacer", Tag: strings.Join(pairs, "\x00")}, true
+	case "(*strings.Replacer).Replace":
+		h, _ := recv.(*Handle)
+		if r, isRef := recv.(*Ref); isRef {
+			h, _ = r.Get().(*Handle)
+		}
+		st, ok := args[0].(Str)
+		if h == nil || !ok || !st.IsConst() {
+			ev.fail(pos, "(*strings.Replacer).Replace on symbolic text")
+		}
+		var pairs []string
+		if h.Tag != "" {
+			pairs = strings.Split(h.Tag, "\x00")
+		}
+		return S(strings.NewReplacer(pairs...).Replace(st.Const())), true
+	case "(*sync.Once).Do":
+		// the function runs the first time Do is called on this Once (the Once's storage remembers it)
+		r, isRef := recv.(*Ref)
+		f, isFn := args[0].(*FuncVal)
+		if !isRef || !isFn {
+			return nil, false
+		}
+		if done, _ := r.Get().(*StructVal); done != nil {
+			if b, _ := done.F["\x00once-done"].(bool); b {
+				return nil, true
+			}
+			done.F["\x00once-done"] = true
+		} else {
+			r.Set(&StructVal{F: map[string]Value{"\x00once-done": true}})
+		}
+		ev.callFuncVal(pos, f, nil)
+		return nil, true
 	case "(*sync.WaitGroup).Add", "(*sync.WaitGroup).Done", "(*sync.WaitGroup).Wait", "(*sync.Mutex).Lock", "(*sync.Mutex).Unlock":
 		if !ev.Pipeline {
 			return nil, false
